@@ -89,6 +89,8 @@ mod verif_kani {
             j += 1;
         }
         kani::cover!(want == 2);
+        std::mem::forget(out);
+        std::mem::forget(td);
     }
 
     /// light variant (quick enough to finish): sender stored, at most one other peer, at most one offer, fixed RNG seed
@@ -138,5 +140,8 @@ mod verif_kani {
             assert!(td.peers.get(&pid(9)).unwrap().expecting_answers.len() == 0, "[C09.ws.offers.expectation_recorded] nothing is recorded when nothing is forwarded");
         }
         kani::cover!(want == 1);
+        // skip the drop glue of the message vector and the peer table (irrelevant to the property, expensive for CBMC)
+        std::mem::forget(out);
+        std::mem::forget(td);
     }
 }
